@@ -84,6 +84,13 @@ def lexify(rng, words: list[str], kind: str | None) -> str:
     raise AssertionError(kind)
 
 
+def _gen_kind(mut: dict, trace: dict) -> str:
+    """In the library's debug mode the parser logs its whole queue and stack for every token (quadratic in the length of the
+    rule): very long chains are left to the other traces."""
+    g = mut["generic"]
+    return "long_chain:30" if g.startswith("long_chain") and trace.get("debugging") else g
+
+
 def with_lex(rng, mut: dict) -> dict:
     if rng.random() < 0.25:
         mut["lex"] = rng.choice(LEX)
@@ -146,7 +153,9 @@ def operand_spans(a: dict, toks: list[tuple[str, str]]) -> list[tuple[int, int]]
     return spans
 
 
-def inject_listed(rng, r: dict, cls: str) -> list[str] | None:
+def inject_listed(rng, r: dict, cls: str, other_names: list[str] | None = None) -> list[str] | None:
+    """other_names: names that exist in the engine but are not variables or terms (its rule blocks, the engine itself):
+    as unknown to a rule as any made-up word."""
     toks = tag_rule(r)
     words = [t for t, _ in toks]
 
@@ -178,7 +187,7 @@ def inject_listed(rng, r: dict, cls: str) -> list[str] | None:
         return words[:s] + words[e:]
     if cls == "unknown_name":
         i = rng.choice(idx("var", "ovar", "term", "oterm", "hedge"))
-        return words[:i] + [rng.choice(["zzz", "q9", "Very", "i9", "o9"])] + words[i + 1:]
+        return words[:i] + [rng.choice(["zzz", "q9", "Very", "i9", "o9"] + (other_names or []) * 2)] + words[i + 1:]
     if cls == "unbalanced_paren":
         par = idx("lparen", "rparen")
         then = words.index("then")
@@ -242,7 +251,7 @@ def mutate_generic(rng, words: list[str], kind: str, vocabulary: list[str] | Non
                 unit.append(w)
         if len(unit) < 3:
             return list(words)
-        n_rep = fixed_n or rng.choice([30, 30, 1100, 2500])
+        n_rep = fixed_n or rng.choice([30, 30, 1100, 1100])  # (1100 is beyond the recursion limit already; longer only costs time)
         conn = rng.choice(["and", "or", None])
         chain: list[str] = []
         for j in range(n_rep):
@@ -583,8 +592,12 @@ class C16(Sim):
         if sp.get("flags", {}).get("example"):
             st.hit("probes.shipped_example_engine")
         vocab = sorted({v["name"] for v in sp["inputs"] + sp["outputs"]} | {t["name"] for v in sp["inputs"] + sp["outputs"] for t in v["terms"]})
+        names_in_use = set(vocab)
+        other_names = [n for n in [b["name"] for b in sp["blocks"]] + [sp["name"]] if n not in names_in_use and n.isidentifier()]
+        vocab = vocab + other_names
         var_names = [v["name"] for v in sp["inputs"] + sp["outputs"]]
         store = TornStore()
+        kept_importer = fl.FllImporter()  # one importer object for the whole trace (besides a fresh one per import)
         for _cls in S.classes_of(sp):
             st.hit("classes." + _cls)
         # harness view of every rule: original text, text currently in force, whether it should be loaded
@@ -623,7 +636,7 @@ class C16(Sim):
                     mut = op["mut"]
                     mr = _random.Random(mut["seed"])
                     if "listed" in mut:
-                        words = inject_listed(mr, rspec, mut["listed"])
+                        words = inject_listed(mr, rspec, mut["listed"], other_names)
                         if words is None:
                             st.hit("outcomes.listed_error_not_applicable")
                             sig.append("n/a")
@@ -634,7 +647,7 @@ class C16(Sim):
                     else:
                         words = orig_text[(bi, ri)].split()
                         for _ in range(mut.get("times", 1)):
-                            words = mutate_generic(mr, words, mut["generic"], vocab, var_names)
+                            words = mutate_generic(mr, words, _gen_kind(mut, trace), vocab, var_names)
                         mclass = "G:" + mut["generic"].split(":")[0]
                         st.hit("faults.rule_generic_" + mut["generic"].split(":")[0])
                     text = lexify(mr, words, mut.get("lex") if listed is None else None)
@@ -770,7 +783,7 @@ class C16(Sim):
                 mr = _random.Random(mut["seed"])
                 listed = None
                 if "listed" in mut:
-                    words = inject_listed(mr, rspec, mut["listed"])
+                    words = inject_listed(mr, rspec, mut["listed"], other_names)
                     if words is None:
                         continue
                     listed = mut["listed"]
@@ -778,7 +791,7 @@ class C16(Sim):
                 else:
                     words = orig_text[(bi, ri)].split()
                     for _ in range(mut.get("times", 1)):
-                        words = mutate_generic(mr, words, mut["generic"], vocab, var_names)
+                        words = mutate_generic(mr, words, _gen_kind(mut, trace), vocab, var_names)
                     st.hit("faults.fresh_generic_" + mut["generic"].split(":")[0])
                 text = lexify(mr, words, mut.get("lex") if listed is None else None)
                 if listed is None and mut.get("lex"):
@@ -971,7 +984,7 @@ class C16(Sim):
                 if not cands:
                     continue
                 j, (bi, ri) = cands[op["line"] % len(cands)]
-                words = inject_listed(_random.Random(op["seed"]), sp["blocks"][bi]["rules"][ri], op["listed"])
+                words = inject_listed(_random.Random(op["seed"]), sp["blocks"][bi]["rules"][ri], op["listed"], other_names)
                 if words is None:
                     continue
                 indent = lines[j][: len(lines[j]) - len(lines[j].lstrip())]
@@ -998,9 +1011,35 @@ class C16(Sim):
                     exc = ex
                 outcome = "accepted" if exc is None else classify(exc)
                 st.hit("outcomes.import_" + outcome)
-                emit(f"{i} import_store -> {outcome} {type(exc).__name__ if exc else ''}")
+                # the same document through an importer object that has been used before (a long-lived service object):
+                # what it accepts must not depend on the documents it has seen
+                exc_k, eng_k = None, None
+                try:
+                    eng_k = kept_importer.from_file(store)
+                except BaseException as ex:  # noqa: BLE001
+                    if not isinstance(ex, Exception):
+                        raise
+                    exc_k = ex
+                outcome_k = "accepted" if exc_k is None else classify(exc_k)
+                emit(f"{i} import_store -> {outcome} {type(exc).__name__ if exc else ''} / reused importer: {outcome_k}")
                 sig.append("I" + outcome[0])
-                if outcome == "internal":
+                if outcome != "internal" and outcome_k == "internal":
+                    outcome, exc = outcome_k, exc_k
+                elif outcome == "rejected" and outcome_k == "accepted":
+                    st.hit("probes.reused_importer_disagrees")
+                    v = Violation("document_rejected_by_a_fresh_importer_accepted_by_a_reused_one", i, exception=type(exc).__name__,
+                                  message=str(exc)[:160], document=store.data[-400:])
+                elif outcome == "accepted" and outcome_k == "accepted":
+                    try:
+                        if fl.FllExporter().to_string(eng_k) != fl.FllExporter().to_string(eng):
+                            st.hit("outcomes.reused_importer_builds_another_engine")
+                    except Exception:
+                        pass
+                elif outcome != outcome_k:
+                    st.hit("outcomes.reused_importer_rejects_what_a_fresh_one_accepts")
+                if v is not None:
+                    pass
+                elif outcome == "internal":
                     v = Violation("internal_error_on_document", i, exception=type(exc).__name__, message=str(exc)[:160],
                                   site=_site(exc), document=store.data[-400:])
                 elif outcome == "rejected":
